@@ -1353,3 +1353,53 @@ Proof. intros H e He. rewrite forallb_forall in H. apply wf_pathb_sound. now app
 Lemma not_under_sound q t :
   forallb (fun e => negb (under q (f_path e))) t = true -> forall e, In e t -> under q (f_path e) = false.
 Proof. intros H e He. rewrite forallb_forall in H. apply negb_true_iff. now apply H. Qed.
+
+(* ================================================================== 7. tie to the Pipeline model *)
+(* the buffer is idle: nothing queued, nothing being grouped, the consumer outside get() *)
+Definition buffer_idle (b : st * rst) : Prop :=
+  q (fst b) = [] /\ closed (fst b) = false /\ pc (fst b) = CIdle /\
+  batch (snd b) = [] /\ grouped (snd b) = [] /\ deleted_self (snd b) = false /\
+  (forall id, In id (map fst (items (snd b))) -> (id < next_el (snd b))%N).
+
+(* one operation, one read of the whole kernel queue, the pairing delay, [nit] calls of queue_events *)
+Definition tie_history (P : pcfg) (s : pstate) (o : op) (nit : nat) : list action :=
+  AOp o :: ARead (length (k_queue (kernel_op (p_k s) (w_fs (p_world s)) o))) :: ATick (pc_delay P)
+      :: repeat AEmit nit.
+
+(* [deliver_one] is what the Pipeline model delivers for AOp o; ARead all; ATick delay; AEmit ... from an idle state *)
+Definition pipeline_tie : Prop := forall P s o evs,
+  pc_filter P = None -> buffer_idle (p_buf s) -> p_stopped s = false -> k_queue (p_k s) = [] ->
+  (forall id, In id (map fst (p_tbl s)) -> (id < p_next s)%N) ->
+  deliver_one (pc_reader P) (pc_full P) (p_world s) (p_k s) (p_r s) o = Some evs ->
+  exists nit s' obs, prun P s (tie_history P s o nit) [] = Done (s', obs) /\ p_out s' = p_out s ++ evs.
+
+Fixpoint nevents_eqb (a b : list nevent) : bool :=
+  match a, b with
+  | [], [] => true
+  | x :: a', y :: b' => nevent_eqb x y && nevents_eqb a' b'
+  | _, _ => false
+  end.
+
+Definition tie_check (P : pcfg) (s : pstate) (nit : nat) (o : op) : bool :=
+  match deliver_one (pc_reader P) (pc_full P) (p_world s) (p_k s) (p_r s) o,
+        prun P s (tie_history P s o nit) [] with
+  | Some evs, Done (s', _) => nevents_eqb (p_out s') (p_out s ++ evs)
+  | _, _ => false
+  end.
+
+Definition ex_P (recursive full : bool) : pcfg :=
+  {| pc_reader := ex_C recursive; pc_full := full; pc_filter := None; pc_delay := 5 |}.
+
+Definition ex_ops : list op :=
+  [Touch (ex_sl ex_Rd 97); Write ex_Rdf; Chmod ex_Rdf; Chmod ex_Rd; Unlink ex_Rx; Mkdir (ex_sl ex_Rd 109);
+   Rmdir ex_Rde; Rename ex_Rdf ex_Rx; Rename ex_Rx (ex_sl ex_O 120); Rename ex_Oy (ex_sl ex_Rd 121);
+   Rename ex_Rd (ex_sl ex_R 110); Rename ex_Rd (ex_sl ex_O 100); Rename ex_Oz (ex_sl ex_Rd 122);
+   Rename ex_Rd ex_Oz (* fails: target not empty *); Rename ex_Oz ex_Rde (* replaces an empty directory *)].
+
+Definition ex_tie (recursive full : bool) : bool :=
+  match pinit (ex_P recursive full) ex_world with
+  | Some s0 => forallb (fun o => match apply_op ex_world o with
+                                 | Some _ => tie_check (ex_P recursive full) s0 6 o
+                                 | None => true end) ex_ops
+  | None => false
+  end.
